@@ -153,3 +153,12 @@ theorem vlt_total (a b : Ver) : vlt a b ∨ (a.key = b.key ∧ a.born = b.born) 
   unfold vlt; omega
 
 end NitroVerif.Mvcc
+
+namespace NitroVerif.MvccGenExtra
+open NitroVerif
+/-- iterator.go: snapshot iterators walk the store with the INSERT comparator, so the skiplist iterator's
+    re-search after the node under the cursor was unlinked lands after that node (the model's cursor holds the
+    version and "physical next" is the first store element greater than it under the insert comparator). With the
+    key-only comparator the re-search lands on the oldest version of the key (witness C01_unfixed_duplicate). -/
+theorem iteratorStoreCmp_ok : Gen.iteratorStoreCmp = Gen.CmpKind.ins := rfl
+end NitroVerif.MvccGenExtra
